@@ -74,6 +74,7 @@ type Rule struct {
 	Err     string `json:"err"`
 	ErrLine int    `json:"errline"`
 	Nodes   []Node `json:"nodes"`
+	NG      bool   `json:"ng"` // first rule of its group
 }
 
 type Group struct {
@@ -220,8 +221,10 @@ func Parse(lines []string, strict bool) (f File) {
 			pg.Err = g.Error.Err.Error()
 		}
 		pg.Nodes = append(pg.Nodes, projectMap("labels", g.Labels, lines)...)
-		for _, r := range g.Rules {
-			pg.Rules = append(pg.Rules, ProjectRule(r, lines))
+		for ri, r := range g.Rules {
+			pr := ProjectRule(r, lines)
+			pr.NG = ri == 0
+			pg.Rules = append(pg.Rules, pr)
 		}
 		f.Groups = append(f.Groups, pg)
 	}
